@@ -167,6 +167,35 @@ def generate(rng: random.Random, tier: str):
                     yield delete_range_case(fam, doc, a, c, sl)
 
 
+    # replace_range_with of a BLOCK node into an empty range at the very start / end of a textblock (appended stream):
+    # insert_point may move the insertion out of the textblock only past positions with nothing in between, so the
+    # content in front of the range stays in front of the inserted node (seeded change C11-8: the `index > 0` stop of the
+    # climb was dropped and the node landed in front of earlier siblings)
+    for fam in gen.FAMILY + gen.EXTRA_FAMILY:
+        g, docs = S.family_docs(rng, fam, 8 if quick else 60)
+        sc = gen.family(fam)
+        made = [sc.nodes[name].create_and_fill() for name in ("code_block", "heading", "horizontal_rule", "blockquote", "bullet_list")
+                if name in sc.nodes]
+        made = [n for n in made if n is not None]
+        for doc in docs:
+            edges = []
+            for p in S.boundary_positions(doc):
+                rp = doc.resolve(p)
+                if not rp.parent.is_textblock or rp.depth < 2:
+                    continue
+                if rp.parent_offset == 0 and any(rp.index(d) > 0 for d in range(rp.depth)):
+                    edges.append(p)       # an earlier sibling somewhere up the chain: the climb must stop there
+                elif rp.parent_offset == rp.parent.content.size and any(rp.index_after(d) < rp.node(d).child_count for d in range(rp.depth)):
+                    edges.append(p)       # a later sibling somewhere up the chain
+            pool = [n for d2 in docs[:4] for _, n in S.all_positions_with_nodes(d2) if n.is_block]
+            rng.shuffle(edges)
+            for p in edges[: (4 if quick else 12)]:
+                for n in made:
+                    yield op_case(fam, doc, "replace_range_with", p, p, None, n)
+                if pool:
+                    yield op_case(fam, doc, "replace_range_with", p, p, None, rng.choice(pool))
+
+
 def _deep_positions(doc, ps):
     """the deepest third of the positions (inside nested lists, cells, figures): slices cut between them are open to
     several levels and ranges between them close and re-open several nodes"""
